@@ -6,3 +6,4 @@ pub mod optparse;
 pub mod expand;
 pub mod ctl;
 pub mod glob;
+pub mod alias;
